@@ -176,8 +176,23 @@ class C01(Prop):
                 if not att:
                     continue
                 c = rng.choice(att)
+                r0 = root(c)
+                key = None
+                if rng.random() < 0.6:
+                    # an event still queued when the unregistration runs: it is dispatched (and cached) while c
+                    # is still in the tree; the same key is fired again after c has left
+                    nm = rng.choice(NAMES)
+                    ch = rng.choice(['*', 'a', 'b', {'comp': c}])
+                    key = (nm, ch)
+                    ops.append({'op': 'fire', 'x': r0, 'e': eid, 'n': nm, 'ch': ch})
+                    eid += 1
                 ops.append({'op': 'detach', 'c': c, 'sub': sub(c)})
                 parent[c] = c
+                if key:
+                    for x in (r0, c):
+                        ops.append({'op': 'fire', 'x': x, 'e': eid, 'n': key[0], 'ch': key[1]})
+                        eid += 1
+                        ops.append({'op': 'flush', 'r': x})
             elif r < 0.86:
                 if recent and rng.random() < 0.6:
                     x, nm, ch = rng.choice(recent)       # same cache key again, after whatever happened in between
